@@ -17,10 +17,11 @@ META = {
     'bounds': {'quick': 'n<=3 states, symbolic non-negative integer counts, symbolic threshold >= 1, renumber on/off, '
                         'dense ndarray and COO input', 'thorough': 'n<=5'},
     'stubs': ['scipy.sparse.csgraph.connected_components = symbolic Warshall closure honouring connection=/directed=, classes '
-              'numbered by smallest member (scipy numbering unspecified)', 'coo_matrix(dense)/toarray = SymCOO; COO matrices with repeated coordinates (count = sum of stored entries, as assigns_to_counts builds them)'],
+              'numbered by smallest member (scipy numbering unspecified)', 'coo_matrix(dense)/toarray = SymCOO; COO matrices with repeated coordinates (count = sum of stored entries, as assigns_to_counts builds them)',
+              'csr/csc/lil/dok/dia/bsr = symbolic shadow symnp/sparse.py (conformance-checked against the installed scipy in the C04/C07/C08 checks)'],
     'assumptions': ['threshold >= 1', 'oracle reachability is computed independently of the stub (own closure over the '
                     'thresholded edge relation)', 'ties in component population: any maximiser accepted'],
-    'outside': ["scipy's own SCC implementation", 'sparse formats other than COO'],
+    'outside': ["scipy's own SCC implementation"],
 }
 
 
@@ -101,6 +102,9 @@ def trim_job(n, renumber=True, form='dense', maxcount=None):
             arg = A
         elif form == 'coo':
             arg = stubs.SymCOO(A)
+        elif form in ('csr', 'csc', 'lil', 'dok', 'dia', 'bsr'):
+            from symnp import sparse as ssp
+            arg = ssp.CLASSES[form](A)
         else:
             arg = stubs.SymCOO([e[0] for e in ent], [e[1] for e in ent], [e[2] for e in ent], (n, n), np.dtype(int))
         exc = None
@@ -125,6 +129,8 @@ def trim_job(n, renumber=True, form='dense', maxcount=None):
                 out['inputs']['stored_entries'] = [list(t) for t in ev_]
                 argc = scipy.sparse.coo_matrix((np.array([t[0] for t in ev_]), (np.array([t[1] for t in ev_]), np.array([t[2] for t in ev_]))),
                                                shape=(n, n))
+            elif form in ('csr', 'csc', 'lil', 'dok', 'dia', 'bsr'):
+                argc = getattr(scipy.sparse, form + '_matrix')(a)
             else:
                 argc = a.copy() if form == 'dense' else scipy.sparse.coo_matrix(a)
             with core.concrete_mode():
@@ -158,11 +164,11 @@ def trim_job(n, renumber=True, form='dense', maxcount=None):
 
 
 def jobs(tier):
-    J = []
+    J = [dict(module='harness.sparse_conf', func='conformance_job', name='sparse-shadow-conformance', kwargs={}, sig_prefix='trusted-base', deadline_s=280)]
     q = tier == 'quick'
     for n in ((1, 2, 3) if q else (1, 2, 3, 4, 5)):
         for ren in (True, False):
-            for form in ('dense', 'coo') + (('coo-dup',) if 2 <= n <= 3 else ()):
+            for form in ('dense', 'coo') + (('coo-dup',) if 2 <= n <= 3 else ()) + (('csr', 'csc', 'lil', 'dok', 'dia', 'bsr') if n == 2 or (n == 3 and not q) else ()):
                 J.append(dict(module='harness.C11', func='trim_job', name='trim[n=%d,renumber=%s,%s]' % (n, ren, form),
                               kwargs=dict(n=n, renumber=ren, form=form), sig_prefix='trim_disconnected',
                               deadline_s=280 if q else 1700))
